@@ -1,6 +1,6 @@
 ------------------------------- MODULE MCns -------------------------------
 EXTENDS FsSpec
-MCNames == {"a", "b"}
+MCNames == IF "VERIF_NAMES" \in DOMAIN IOEnv /\ IOEnv.VERIF_NAMES = "3" THEN {"a", "b", "c"} ELSE {"a", "b"}
 MCNameOrder == <<"a", "b", "c">>
 MCMaxLen == IF "VERIF_MAXLEN" \in DOMAIN IOEnv THEN atoi(IOEnv.VERIF_MAXLEN) ELSE 2
 MCProfile == IF "VERIF_PROFILE" \in DOMAIN IOEnv THEN IOEnv.VERIF_PROFILE ELSE "ns"
